@@ -28,7 +28,7 @@ package memmetrics
 //@ pred sl(c *RollingCounter, t int) = slot(t, c.resolution)
 //@ pred bk(c *RollingCounter, s int) = bkt(s, c.resolution, len(c.values))
 //@ pred inWindow(c *RollingCounter, s int, t int) = sl(c, t) - len(c.values) < s && s <= sl(c, t)
-//@ pred RC(c *RollingCounter) = (forall s int :: inWindow(c, s, c.lastUpdated) ==> c.values[bk(c, s)] == c.gsum[s]) && (forall s int :: s > sl(c, c.lastUpdated) ==> c.gsum[s] == 0)
+//@ pred RC(c *RollingCounter) = c.lastUpdated <= c.tclean && c.tclean <= lastclock && (forall s int :: inWindow(c, s, c.tclean) ==> c.values[bk(c, s)] == c.gsum[s]) && (forall s int :: s > sl(c, c.lastUpdated) ==> c.gsum[s] == 0)
 //@ pred cleanAt(c *RollingCounter, t int) = forall s int :: inWindow(c, s, t) ==> c.values[bk(c, s)] == c.gsum[s]
 
 //@ type RollingCounter
@@ -36,6 +36,7 @@ package memmetrics
 //@   mutators Inc Count Reset Clone Append cleanup incBucketValue
 //@   immutable resolution
 //@   ghost gsum map[int]int
+//@   ghost tclean int
 
 //@ spec vsum(c *RollingCounter, k int) int reads RollingCounter.values elems(int)
 //@ axiom vsum_zero: forall c *RollingCounter :: vsum(c, 0) == 0
@@ -53,13 +54,15 @@ package memmetrics
 //@   assume clock_stable
 //@   onlyaxioms slot_step trunc_after slot_monotone bkt_range bkt_injective
 //@   requires cfgOK(c) && RC(c) && lastclock >= (len(c.values) + 1) * c.resolution
-//@   modifies elems(c.values)
+//@   modifies elems(c.values), c.tclean
+//@   ghost_ensures c.tclean == lastclock
 //@   ensures window_clean: cleanAt(c, lastclock)
-//@   ensures nothing_newer: forall s int :: s > sl(c, c.lastUpdated) ==> c.gsum[s] == 0
+//@   ensures keeps_invariant: RC(c)
 //@   loop 1 invariant 0 <= i && i <= len(c.values) && cfgOK(c) && len(c.values) == old(len(c.values))
 //@   loop 1 invariant slot(lastclock + (-1 * i) * c.resolution, c.resolution) == sl(c, lastclock) - i
 //@   loop 1 invariant forall s int :: sl(c, lastclock) - i < s && s <= sl(c, lastclock) ==> s > sl(c, c.lastUpdated) && c.values[bk(c, s)] == 0
-//@   loop 1 invariant forall s int :: inWindow(c, s, c.lastUpdated) && s > sl(c, lastclock) - len(c.values) ==> c.values[bk(c, s)] == c.gsum[s]
+//@   loop 1 invariant forall s int :: s <= sl(c, c.lastUpdated) && s > sl(c, lastclock) - len(c.values) ==> c.values[bk(c, s)] == c.gsum[s]
+//@   loop 1 invariant c.lastUpdated <= c.tclean && c.tclean <= lastclock
 //@   loop 1 invariant forall s int :: s > sl(c, c.lastUpdated) ==> c.gsum[s] == 0
 //@   loop 1 decreases len(c.values) - i
 
@@ -67,19 +70,18 @@ package memmetrics
 //@   props C17
 //@   assume clock_stable
 //@   onlyaxioms slot_monotone bkt_range bkt_injective
-//@   requires cfgOK(c) && cleanAt(c, lastclock) && lastclock >= (len(c.values) + 1) * c.resolution && (forall s int :: s > sl(c, c.lastUpdated) ==> c.gsum[s] == 0)
+//@   requires cfgOK(c) && RC(c) && c.tclean == lastclock && lastclock >= (len(c.values) + 1) * c.resolution
 //@   modifies elems(c.values), c.lastUpdated, c.countedBuckets, c.lastBucket, c.gsum[sl(c, lastclock)]
 //@   ghost_ensures c.gsum[sl(c, lastclock)] == old(c.gsum[sl(c, lastclock)]) + v
 //@   ensures stamped: c.lastUpdated == lastclock
-//@   ensures window_matches: cleanAt(c, lastclock)
-//@   ensures nothing_newer: forall s int :: s > sl(c, lastclock) ==> c.gsum[s] == 0
+//@   ensures keeps_invariant: RC(c)
 
 //@ func (*RollingCounter).Inc
 //@   props C17
 //@   assume clock_stable
 //@   onlyaxioms slot_monotone
 //@   requires cfgOK(c) && RC(c) && lastclock >= (len(c.values) + 1) * c.resolution
-//@   modifies elems(c.values), c.lastUpdated, c.countedBuckets, c.lastBucket, c.gsum[sl(c, lastclock)]
+//@   modifies elems(c.values), c.lastUpdated, c.countedBuckets, c.lastBucket, c.gsum[sl(c, lastclock)], c.tclean
 //@   ensures counted_in_current_slot: c.gsum[sl(c, lastclock)] == old(c.gsum[sl(c, lastclock)]) + v
 //@   ensures keeps_invariant: RC(c) && cfgOK(c)
 
@@ -95,9 +97,10 @@ package memmetrics
 //@   assume clock_stable
 //@   onlyaxioms slot_monotone
 //@   requires cfgOK(c) && RC(c) && lastclock >= (len(c.values) + 1) * c.resolution
-//@   modifies elems(c.values)
+//@   modifies elems(c.values), c.tclean
 //@   ensures sum_of_buckets: result == vsum(c, len(c.values))
 //@   ensures buckets_are_window: cleanAt(c, lastclock)
+//@   ensures keeps_invariant: RC(c) && cfgOK(c)
 
 //@ type RatioCounter
 //@   extsync
@@ -108,7 +111,7 @@ package memmetrics
 //@   props C17
 //@   assume clock_stable
 //@   requires r != nil && r.a != nil && r.b != nil && r.a != r.b && backing(r.a.values) != backing(r.b.values) && cfgOK(r.a) && RC(r.a) && cfgOK(r.b) && RC(r.b) && lastclock >= (len(r.a.values) + 1) * r.a.resolution && lastclock >= (len(r.b.values) + 1) * r.b.resolution
-//@   modifies elems(r.a.values), elems(r.b.values)
+//@   modifies elems(r.a.values), elems(r.b.values), r.a.tclean, r.b.tclean
 //@   ensures empty_is_zero: callres(Count, 0, 0) + callres(Count, 1, 0) == 0 ==> result == 0.0
 //@   ensures ratio: callres(Count, 0, 0) + callres(Count, 1, 0) != 0 ==> result == real(callres(Count, 0, 0)) / real(callres(Count, 0, 0) + callres(Count, 1, 0))
 //@   ensures counts_are_the_two_counters: callarg(Count, 0, 0) == r.a && callarg(Count, 1, 0) == r.b
@@ -128,14 +131,44 @@ package memmetrics
 //@   ensures emptied: c.lastUpdated == zerotime && c.countedBuckets == 0 && (forall j int :: 0 <= j && j < len(c.values) ==> c.values[j] == 0)
 //@   loop 1 invariant -1 <= rangeindex && rangeindex < len(c.values) && len(c.values) == old(len(c.values)) && (forall j int :: 0 <= j && j <= rangeindex ==> c.values[j] == 0)
 
-// ---- round-trip metrics (coarse contracts: which counters move; used by the circuit breaker, C18) ------
+// ---- round-trip metrics (C18): which counters a response moves, and the ratios read from them --------------
+
+//@ pred counterOK(c *RollingCounter) = c != nil && allocated(c) && cfgOK(c) && RC(c) && lastclock >= (len(c.values) + 1) * c.resolution
+//@ pred metricsOK(m *RTMetrics) = m != nil && counterOK(m.total) && counterOK(m.netErrors) && m.total != m.netErrors && backing(m.total.values) != backing(m.netErrors.values)
+
+//@ type RTMetrics
+//@   immutable total netErrors histogram newCounter newHist
 
 //@ func (*RTMetrics).Reset
 //@   props C18
+//@   trusted
 //@   requires m != nil
+//@   modifies everything
+
+//@ func (*RTMetrics).recordStatusCode
+//@   props C18
+//@   trusted
+//@   modifies everything
+
+//@ func (*RTMetrics).recordLatency
+//@   props C18
+//@   trusted
 //@   modifies everything
 
 //@ func (*RTMetrics).Record
 //@   props C18
-//@   requires m != nil
+//@   assume clock_stable
+//@   requires metricsOK(m)
 //@   modifies everything
+//@   ensures total_counts_every_response: callarg(Inc, 0, 0) == m.total && callarg(Inc, 0, 1) == 1
+//@   ensures gateway_errors_are_network_errors: (code == 502 || code == 504) ==> calls(Inc) == 2 && callarg(Inc, 1, 0) == m.netErrors && callarg(Inc, 1, 1) == 1
+//@   ensures other_codes_are_not: !(code == 502 || code == 504) ==> calls(Inc) == 1
+//@   ensures code_and_latency_recorded: calls(recordStatusCode) == 1 && callarg(recordStatusCode, 0, 1) == code && calls(recordLatency) == 1 && callarg(recordLatency, 0, 1) == duration
+
+//@ func (*RTMetrics).NetworkErrorRatio
+//@   props C18
+//@   assume clock_stable
+//@   requires metricsOK(m)
+//@   modifies elems(m.total.values), elems(m.netErrors.values), m.total.tclean, m.netErrors.tclean
+//@   ensures empty_is_zero: callres(Count, 0, 0) == 0 ==> result == 0.0 && callarg(Count, 0, 0) == m.total
+//@   ensures ratio: calls(Count) == 3 && callres(Count, 0, 0) != 0 ==> callarg(Count, 1, 0) == m.netErrors && callarg(Count, 2, 0) == m.total && result == real(callres(Count, 1, 0)) / real(callres(Count, 2, 0))
